@@ -405,12 +405,15 @@ def _compile_objects(
 
         logger.info(f"JIT C compiler finished in {time.time() - t0:.4f}")
 
-        # Create a "status ready" file. If this fails, it is an error,
-        # because it should not exist yet.
-        # Copy the stdout verbose output of the build into the ready file
-        fd = open(ready_name, "x")
-        fd.write(s)
-        fd.close()
+        # Create a "status ready" file holding the stdout verbose output
+        # of the build. It is written under a temporary name and then
+        # moved into place in one step: the ready file never exists
+        # without its content, and a failed write leaves no ready file
+        # behind for later requests to trust.
+        tmp_name = ready_name.with_suffix(".cached.tmp")
+        with open(tmp_name, "w") as fd:
+            fd.write(s)
+        os.replace(tmp_name, ready_name)
     finally:
         # Copy back the original handlers (in case someone is logging into
         # root logger and has custom handlers), also when the build fails
